@@ -194,7 +194,7 @@ theorem inv_finish (s : State) (c : Nat) (cs : ChainSt) (dep wd : List (Nat × N
   intro c'
   simp only [finish, setChain]
   split
-  · exact hcs
+  · exact hcs.congr rfl rfl rfl rfl rfl
   · exact hinv c'
 
 /-- every successful operation keeps the batch invariant of every chain -/
@@ -249,7 +249,8 @@ theorem runOps_inv (cfg : Cfg) (ops : List Op) (s : State) (hinv : ∀ c, BatchI
     | error e => exact hinv
     | ok s' => exact step_inv cfg s s' op h hinv
 
-theorem init_inv (L : Ledger) : ∀ c, BatchInv ((init L).chains c) := fun _ => BatchInv.init
+theorem init_inv (L : Ledger) (e0 : Nat → Nat → Nat) : ∀ c, BatchInv ((initE L e0).chains c) :=
+  fun _ => BatchInv.init.congr rfl rfl rfl rfl rfl
 
 /-- with pairwise distinct nonces the filter for one (token, nonce) finds exactly the batch -/
 theorem filter_isBatch_unique (bs : List Batch) (b : Batch) (hb : b ∈ bs)
